@@ -8,10 +8,15 @@ ALL="C01 C02 C03 C04 C05 C06 C07 C08 C09 C10 C11 C13 C14 C15 C16"
 rsync -a --exclude target /verif/sim/ /tmp/sweep/sim/ && sed -i 's|path = "/repo"|path = "/tmp/sweep/repo"|' /tmp/sweep/sim/Cargo.toml
 for seed in "$@"; do
   id="${seed%-*}"; n="${seed#*-}"; src="/tmp/seed-$id/OUT"
+  case "$seed" in R2-*) id="${seed#R2-}"; n=1; src="/tmp/seed2-$id/OUT";; esac
   dst="/verif/seeded/$seed"; mkdir -p "$dst"
   cp "$src/bug$n.diff" "$dst/patch.diff"; cp "$src/demo$n.rs" "$dst/demo.rs"
   git -C /tmp/sweep/repo checkout -q -- . ; git -C /tmp/sweep/repo reset -q --hard "$(git -C /repo rev-parse HEAD)"
-  if ! git -C /tmp/sweep/repo apply "$dst/patch.diff"; then echo "$seed: patch does not apply" > "$dst/result.txt"; continue; fi
+  if ! git -C /tmp/sweep/repo apply "$dst/patch.diff" 2>/dev/null; then
+    # the seed was made on an older HEAD of /repo: three-way merge onto the current one
+    if git -C /tmp/sweep/repo apply --3way "$dst/patch.diff" 2>/dev/null; then git -C /tmp/sweep/repo reset -q; echo "(applied by 3-way merge onto $(git -C /repo rev-parse --short HEAD))" > "$dst/apply.txt";
+    else echo "$seed: patch does not apply" > "$dst/result.txt"; continue; fi
+  fi
   ( cd /tmp/sweep/sim && cargo build --release --offline 2>&1 | tail -3 ) > "$dst/build.log"
   : > "$dst/result.txt"
   for p in $ALL; do
